@@ -53,7 +53,17 @@ def run(ctx):
         cases = emit_cases(ctx)
         ctx.cov["model_states_as_cases"] = len(cases)
         fam = c01.load_family(ctx)
-    defs = genlab.collect_defs(fam + [{"S": cases[0]["S"]}])
+    # a wide reader: Rd with 12 more optional fields nobody writes (generated code may take another shape beyond some
+    # number of fields); a sample of the cases is decoded by it as well
+    if not ctx.replay:
+        rd = [d for d in cases[0]["S"] if d["name"] == "Rd"][0]
+        pad = [{"id": 100 + k, "name": "pad%d" % k, "t": {"k": "i32"}, "req": False, "def": {"k": "none"}} for k in range(1, 13)]
+        rdw = dict(rd, name="RdW", fields=list(rd["fields"]) + pad)
+        wide = []
+        for c in cases[:: (7 if ctx.quick() else 2)]:
+            wide.append(dict(c, id=c["id"] + "w", S=list(c["S"]) + [rdw], tn="RdW", wtn="Rd"))
+        cases = cases + wide
+    defs = genlab.collect_defs(fam + [{"S": c["S"]} for c in cases if c.get("tn") == "RdW"][:1] + [{"S": cases[0]["S"]}])
     lab, mod = genlab.build_lab(ctx, defs)
     rows = c01.run_lab(ctx, lab, cases, name="c05")
     ctx.evals = len(rows)
